@@ -64,6 +64,13 @@ CHECKS = {
             # hook on the topic store), with the happens-before race detector (see C18)
             {"pkg": "service", "run": "H18_teardown_delivery|H18_teardown_after_delivery",
              "flags": {"common": ["-unwind", "64", "-race"]}, "reach": []},
+            # a client that keeps many QoS 2 publishes unreleased makes its session's queue grow (possibly while wrapped):
+            # that must stay confined to its own queue and never index out of range (step lemma of C13)
+            {"pkg": "sessions", "run": "H13_wait|H13_acked",
+             "flags": {"common": ["-unwind", "40"], "quick": ["-bounds", "N13logsizes=2,N13ops=4"], "thorough": ["-bounds", "N13logsizes=2,N13ops=4"]},
+             "reach": []},
+            # the queue at a session's real size with 17..260 requests in flight after 0..17 completed ones (growth while wrapped at 16..256 slots)
+            {"pkg": "sessions", "run": "H13p_many", "flags": {"common": ["-unwind", "1000"]}, "reach": ["C13.many"]},
         ],
         "bounds": {"quick": "offender bytes after CONNECT: any 0..4 bytes; before CONNECT: any 0..6 bytes in two chunks; will topic any 0..2 bytes", "thorough": "0..6 / 0..10 bytes"},
         "outside": ["longer garbage", "teardown racing with deliveries (schedules)", "resource exhaustion other than one allocation's size"],
@@ -84,6 +91,9 @@ CHECKS = {
                        "thorough": ["-bounds", "N06levels=2,N06ops=3,N06rops=3,N06validonly=0"]}},
             {"pkg": "topics", "run": "H06c_.*", "tiers": ["thorough"],
              "flags": {"thorough": ["-unwind", "40", "-revmaps", "-bounds", "N06levels=2,N06ops=2,N06rops=3,N06validonly=1"]}},
+            # width and depth: 3..4 subscriptions on overlapping three-level filters, a node with eleven children
+            {"pkg": "topics", "run": "H06f_.*", "flags": {"common": ["-unwind", "200"]}, "reach": ["C06.branches", "C06.three_branches_match"], "reach_for": "H06f_branches", "reach_any": ["C06.wide"]},
+            {"pkg": "topics", "run": "H06f_.*", "tiers": ["thorough"], "flags": {"thorough": ["-unwind", "200", "-revmaps"]}},
         ],
         "bounds": {"quick": "byte-level: filter and topic of 1..3 arbitrary bytes each (not starting with '$'), all QoS / max-QoS values; splitter: names of 1..5 bytes; histories: 2 subscribers x 2 filters of 1..2 levels (tokens literal byte / + / #, literal values symbolic), 2 operations + lookup; retained: 2 topics, 3 operations + lookup",
                    "thorough": "byte-level 1..4 bytes; splitter 1..7; histories of 3 operations incl. invalid filters, also with reversed map iteration order"},
@@ -110,6 +120,8 @@ CHECKS = {
             {"pkg": "sessions", "run": "H13_wait|H13_ack|H13_acked",
              "flags": {"common": ["-unwind", "40"], "quick": ["-bounds", "N13logsizes=2,N13ops=4"], "thorough": ["-bounds", "N13logsizes=2,N13ops=4"]},
              "reach": []},
+            # the queue at a session's real size with 17..260 requests in flight after 0..17 completed ones (growth while wrapped at 16..256 slots)
+            {"pkg": "sessions", "run": "H13p_many", "flags": {"common": ["-unwind", "1000"]}, "reach": ["C13.many"]},
         ],
         "bounds": {"quick": "request kinds: PUBLISH q0/q1/q2, SUBSCRIBE, UNSUBSCRIBE, PINGREQ; one request; one preemption (suspension until quiescence of the rest) anywhere", "thorough": "two preemptions"},
         "outside": ["more than two simultaneous requests and their acknowledgement orders at service level (the queue side of that is decided by the C13 step lemmas, which run here too)", "broker-to-subscriber forwarding with colliding packet identifiers"],
@@ -124,12 +136,16 @@ CHECKS = {
              "flags": {"common": ["-unwind", "40"], "quick": ["-bounds", "N13logsizes=2,N13ops=4"]},
              "reach": []},
             # the property through the exported surface only (keeps deciding when the ring's representation is refactored)
-            {"pkg": "sessions", "run": "H13p_.*",
+            {"pkg": "sessions", "run": "H13p_history",
              "flags": {"common": ["-unwind", "40"], "quick": ["-bounds", "N13pops=3"], "thorough": ["-bounds", "N13pops=4"]},
              "reach": ["C13.history_public", "C13.grown_while_wrapped", "C13.released_some"]},
+            # the queue at a session's real size with 17..260 requests in flight after 0..17 completed ones (growth while wrapped at 16..256 slots)
+            {"pkg": "sessions", "run": "H13p_many", "flags": {"common": ["-unwind", "1000"]}, "reach": ["C13.many"]},
             {"pkg": "sessions", "run": "H13_wait|H13_ack", "tiers": ["thorough"],
              "flags": {"common": ["-unwind", "40"], "thorough": ["-bounds", "N13logsizes=3"]},
              "reach": []},
+            # the queue at a session's real size with 17..260 requests in flight after 0..17 completed ones (growth while wrapped at 16..256 slots)
+            {"pkg": "sessions", "run": "H13p_many", "flags": {"common": ["-unwind", "1000"]}, "reach": ["C13.many"]},
             {"pkg": "sessions", "run": "H13_acked|H13_ack_wrong_type|H13_wait_qos0_and_ping|H13_wait_unencodable|H13b_.*", "tiers": ["thorough"],
              "flags": {"common": ["-unwind", "40"], "thorough": ["-bounds", "N13logsizes=2,N13ops=6"]},
              "reach": []},
@@ -156,6 +172,9 @@ CHECKS = {
              "flags": {"common": ["-unwind", "40", "-sched", "canonical"]},
              "reach_any": ["C14.blocked_producer", "C14.close_while_blocked"]},
             {"pkg": "service", "run": "H14w_.*", "flags": {"common": ["-unwind", "100000"]}, "reach": ["C14.write_ringsize"]},
+            # packets of different sizes that straddle the end of the outgoing ring one after the other go through the
+            # connection's scratch buffer: only the bytes of the current packet may enter the ring (see C17)
+            {"pkg": "service", "run": "H17_wrap_sequence", "flags": {"common": ["-unwind", "200"]}, "reach": ["C17.wrap_sequence"]},
             {"pkg": "service", "run": "H14c_.*", "sched": True,
              "flags": {"common": ["-unwind", "40", "-sched", "explore", "-race"], "quick": ["-preempt", "1"], "thorough": ["-preempt", "2"]},
              "reach": ["C14.concurrent"]},
@@ -200,6 +219,11 @@ CHECKS = {
             {"pkg": "message", "run": "H04b_subscribe_large|H04b_unsubscribe_large|H04b_suback_large", "flags": {"common": ["-unwind", "40000"]}, "reach": ["C04.large"]},
             # a refused filter changes nothing in the subscription tree (see C06)
             {"pkg": "topics", "run": "H06c_rejected", "flags": {"common": ["-unwind", "40"]}, "reach": ["C06.rejected"]},
+            # subscription changes (UNSUBSCRIBE, the teardown of a connection, the in-process API) while another connection's
+            # fan-out walks the same part of the tree: with the happens-before race detector (see C18)
+            {"pkg": "service", "run": "H18_fanout_churn|H18_teardown|H18_inproc_api", "flags": {"common": ["-unwind", "64", "-race"]}, "reach": []},
+            # SUBSCRIBE / UNSUBSCRIBE of a filter the connection holds because its persistent session was restored (see C10)
+            {"pkg": "service", "run": "H10_requalify_resumed|H10_unsubscribe_resumed", "flags": {"common": ["-unwind", "64"]}, "reach": []},
         ],
         "bounds": {"quick": "SUBSCRIBE with 1..2 filters of 1..2 levels (tokens literal/+/#, '#' possibly misplaced), requested QoS 0..255, server maximum 0..2; UNSUBSCRIBE with 1..2 filters drawn from two subscribed ones and an unknown one; one publish on a symbolic topic afterwards; plus concrete requests with 24, 25, 26, 125, 126, 127, 128 and 200 literal filters (subscribe, publish to the first / middle / last, unsubscribe, publish again)",
                    "thorough": "filters and topic of 1..3 levels"},
@@ -222,6 +246,12 @@ CHECKS = {
              "flags": {"thorough": ["-unwind", "64", "-revmaps", "-bounds", "N01levels=2,N01levelsB=1,N01levelsT=1,N01changes=2,N01payload=1,N01payloadmin=1"]}},
             # a repeated SUBSCRIBE replaces the granted QoS of the subscription (see C07)
             {"pkg": "service", "run": "H07_resubscribe", "flags": {"common": ["-unwind", "64"]}, "reach": ["C07.resubscribed"]},
+            # an UNSUBSCRIBE that lists an unknown filter ahead of a held one still removes the held one (see C07)
+            {"pkg": "service", "run": "H07_unsubscribe", "flags": {"common": ["-unwind", "64", "-bounds", "N07levels=1,N07filters=2,N07ufilters=2"]}, "reach": []},
+            # ... also for the connection that resumes the session later (see C10)
+            {"pkg": "service", "run": "H10_requalify_resumed", "flags": {"common": ["-unwind", "64"]}, "reach": []},
+            # the matcher on a node with many children and on several live branches (see C06)
+            {"pkg": "topics", "run": "H06f_.*", "flags": {"common": ["-unwind", "200"]}, "reach": ["C06.branches"], "reach_for": "H06f_branches", "reach_any": ["C06.wide"]},
             # re-encoded deliveries whose remaining length is 125..131
             {"pkg": "service", "run": "H01s_.*", "flags": {"common": ["-unwind", "100000"]}, "reach": ["C01.boundary_sizes"]},
             # accepted QoS 2 publishes wait in the inbound queue (growth, wrap: step lemmas of C13); large messages pipelined
@@ -229,6 +259,8 @@ CHECKS = {
             {"pkg": "sessions", "run": "H13_wait|H13_acked",
              "flags": {"common": ["-unwind", "40"], "quick": ["-bounds", "N13logsizes=2,N13ops=4"], "thorough": ["-bounds", "N13logsizes=2,N13ops=4"]},
              "reach": []},
+            # the queue at a session's real size with 17..260 requests in flight after 0..17 completed ones (growth while wrapped at 16..256 slots)
+            {"pkg": "sessions", "run": "H13p_many", "flags": {"common": ["-unwind", "1000"]}, "reach": ["C13.many"]},
             {"pkg": "service", "run": "H17_backpressure", "flags": {"common": ["-unwind", "100000"]}, "reach": []},
             # two clients' deliveries to one subscriber interleaved at every synchronisation point (see C17)
             {"pkg": "service", "run": "H17_two_writers", "sched": True,
@@ -253,6 +285,8 @@ CHECKS = {
             {"pkg": "sessions", "run": "H13_wait|H13_acked|H13_ack",
              "flags": {"common": ["-unwind", "40"], "quick": ["-bounds", "N13logsizes=2,N13ops=4"], "thorough": ["-bounds", "N13logsizes=2,N13ops=4"]},
              "reach": []},
+            # the queue at a session's real size with 17..260 requests in flight after 0..17 completed ones (growth while wrapped at 16..256 slots)
+            {"pkg": "sessions", "run": "H13p_many", "flags": {"common": ["-unwind", "1000"]}, "reach": ["C13.many"]},
             # unrelated traffic that laps the receive ring while a hand-over is held up (see C17)
             {"pkg": "service", "run": "H17_backpressure", "flags": {"common": ["-unwind", "100000"]}, "reach": []},
             # an acknowledgement written while another connection forwards to the same client (see C17)
@@ -282,7 +316,9 @@ CHECKS = {
             {"pkg": "service", "run": "H08_.*", "tiers": ["thorough"],
              "flags": {"thorough": ["-unwind", "64", "-bounds", "N08levels=2,N08ops=3"]}, "reach": ["C08.retained_delivered", "C08.cleared", "C08.inprocess"]},
             # a retained update / clear landing between the two steps of a new subscription (hook on the topic store)
-            {"pkg": "service", "run": "H08b_.*|H08c_.*|H08d_.*|H08e_.*", "flags": {"common": ["-unwind", "64"]}, "reach_any": ["C08.update_during_subscribe", "C08.capped_grant", "C08.inprocess_retained_publish", "C08.multi_filter"]},
+            {"pkg": "service", "run": "H08b_.*|H08c_.*|H08d_.*|H08e_.*|H08f_.*", "flags": {"common": ["-unwind", "64"]}, "reach_any": ["C08.update_during_subscribe", "C08.capped_grant", "C08.inprocess_retained_publish", "C08.multi_filter", "C08.retained_same_id"]},
+            # sizes: a stored message downgraded across the 127/128 length boundary; 9..12 retained matches for one SUBSCRIBE
+            {"pkg": "service", "run": "H08s_.*|H08m_.*", "flags": {"common": ["-unwind", "300"]}, "reach": ["C08.boundary_retained"], "reach_for": "H08s_boundary_retained", "reach_any": ["C08.many_retained"]},
             # retained updates, clears and look-ups by several connections at once, with the race detector (see C18)
             {"pkg": "service", "run": "H18_retained_update", "flags": {"common": ["-unwind", "64", "-race"]}, "reach": ["C18.retained_update"]},
             # the store copies a message through Len() and Encode(): both are the wire size for every remaining length (see C03)
@@ -298,7 +334,10 @@ CHECKS = {
         "max_validate": {"quick": 100, "thorough": 300},
         "groups": [
             {"pkg": "service", "run": "H09_.*", "flags": {"common": ["-unwind", "64"]},
-             "reach": ["C09.will_seen"], "reach_for": "H09_will|H09_reconnect", "reach_any": ["C09.pipelined", "C09.ended", "C09.reconnected", "C09.retained_will_qos"]},
+             "reach": ["C09.will_seen"], "reach_for": "H09_will|H09_reconnect", "reach_any": ["C09.pipelined", "C09.ended", "C09.reconnected", "C09.retained_will_qos", "C09.will_id_collides_with_one_in_flight"]},
+            # the will is built by the broker without a packet identifier and gets one from the process-wide generator at
+            # its first encoding (for a retained will: inside the retained store): from an arbitrary counter value (see C03)
+            {"pkg": "message", "run": "H03d_.*", "flags": {"common": ["-unwind", "40"]}, "reach": ["C03.auto"]},
         ],
         "bounds": {"quick": "will topic 'w'+1 symbolic byte, payload 0..1 bytes, QoS 0..2, retain; endings x5; optional PINGREQ before the end; two successive connections of one client id with symbolic clean-session bits and wills", "thorough": "same"},
         "outside": ["longer will topics/payloads", "Server.Close as ending", "wills with invalid topic names"],
@@ -314,6 +353,8 @@ CHECKS = {
              "reach": ["C10.restored", "C10.history"], "reach_for": "H10_sessions", "reach_any": ["C10.takeover", "C10.broken_reconnect", "C10.unsubscribe_resumed", "C10.restored_before_first_answer"]},
             {"pkg": "service", "run": "H10_.*", "tiers": ["thorough"],
              "flags": {"thorough": ["-unwind", "64", "-revmaps", "-bounds", "N10conns=2"]}},
+            # a persistent session with 17..300 filters over one to four SUBSCRIBE packets, resumed twice
+            {"pkg": "service", "run": "H10m_.*", "flags": {"common": ["-unwind", "2000"]}, "reach": ["C10.many_filters"]},
         ],
         "bounds": {"quick": "2 successive connections, 2 client ids (possibly equal), action none/subscribe/unsubscribe, ending DISCONNECT/drop", "thorough": "the same space, and once more with reversed map iteration order (three successive connections: 740 K paths, about an hour - not registered)"},
         "outside": ["more connections / filters", "session take-over by a second live connection", "provider plug-ins other than mem"],
@@ -344,6 +385,11 @@ CHECKS = {
         "groups": [
             {"pkg": "service", "run": "H16_.*", "flags": {"common": ["-unwind", "100000"]},
              "reach": ["C16.blocked_on_stalled_subscriber", "C16.cross_blocked", "C16.blocked_on_own_ring", "C16.error_in_full_pipeline", "C16.receiver_parked_behind_error", "C16.server_close_as_ending", "C16.torn_down"]},
+            # the subscriptions of a connection that holds them because its persistent session was restored are its own:
+            # it can remove them, and they end with it (see C10)
+            {"pkg": "service", "run": "H10_requalify_resumed|H10_unsubscribe_resumed", "flags": {"common": ["-unwind", "64"]}, "reach": []},
+            # Server.Close while a connection's own teardown is under way (forced by a hook on the topic store)
+            {"pkg": "service", "run": "H18_close_during_teardown", "flags": {"common": ["-unwind", "64", "-race"]}, "reach": ["C18.close_during_teardown"]},
             # keep-alive expiry of a dead client whose full outgoing ring blocks a publisher (see C19)
             # (without the variant in which the dead client filled its rings itself: there the connection that has
             # stopped reading and holds up the delivery is the dying one itself, which C16's statement exempts;
@@ -367,7 +413,7 @@ CHECKS = {
              "reach": ["C17.two_writers"]},
             {"pkg": "service", "run": "H17_backpressure|H17_order|H17_qos2_window", "flags": {"common": ["-unwind", "100000"]},
              "reach": []},
-            {"pkg": "service", "run": "H14_readpeek_commit|H14_writeto|H14_readwait",
+            {"pkg": "service", "run": "H14_readpeek_commit|H14_writeto|H14_readwait|H14_second_lap",
              "flags": {"common": ["-unwind", "40"], "quick": ["-bounds", "N14chunk=4"], "thorough": ["-bounds", "N14chunk=8"]},
              "reach": []},
             {"pkg": "service", "run": "H17_peeksize", "flags": {"common": ["-unwind", "40"]}, "reach": ["C17.peeksize"]},
@@ -405,7 +451,7 @@ CHECKS = {
         "validate_under_race": True,
         "groups": [
             {"pkg": "service", "run": "H18_.*", "flags": {"common": ["-unwind", "64", "-race"]},
-             "reach_any": ["C18.retained_update", "C18.fanout_churn", "C18.teardown", "C18.teardown_delivery", "C18.teardown_after_delivery", "C18.resume", "C18.ackqueue", "C18.inproc_api", "C18.will_during_takeover"]},
+             "reach_any": ["C18.retained_update", "C18.fanout_churn", "C18.teardown", "C18.teardown_delivery", "C18.teardown_after_delivery", "C18.resume", "C18.ackqueue", "C18.inproc_api", "C18.will_during_takeover", "C18.close_during_teardown", "C18.close_vs_accept", "C18.close_during_fanout"]},
             # the same scenarios with the threads rotated in the opposite order: which accesses a happens-before
             # detector sees unordered depends on the order in which the explored run took the locks
             {"pkg": "service", "run": "H18_.*", "flags": {"common": ["-unwind", "64", "-race", "-schedrev"]}, "reach": []},
@@ -413,6 +459,10 @@ CHECKS = {
             {"pkg": "service", "run": "H17b_.*", "sched": True,
              "flags": {"common": ["-unwind", "64", "-sched", "explore", "-race"], "quick": ["-preempt", "1"], "thorough": ["-preempt", "2"]},
              "reach": ["C17.two_publishers"]},
+            # a ring closed by another goroutine while its consumer works on a block that straddles the end of the ring
+            {"pkg": "service", "run": "H18_ring_close_vs_wrapped_consumer", "sched": True,
+             "flags": {"common": ["-unwind", "64", "-sched", "explore", "-race"], "quick": ["-preempt", "1"], "thorough": ["-preempt", "2"]},
+             "reach": ["C18.ring_close_vs_wrapped_consumer"]},
             # re-entrant use of the in-process API from delivery callbacks (see C01)
             {"pkg": "service", "run": "H01_unsubscribe_in_callback|H01_nested_publish", "flags": {"common": ["-unwind", "64", "-race"]}, "reach_any": ["C01.unsubscribe_in_callback", "C01.nested_publish"]},
             # Ack || Wait on a full wrapped ack queue, with the detector (see C13)
@@ -424,7 +474,7 @@ CHECKS = {
              "flags": {"common": ["-unwind", "64", "-sched", "explore", "-race"], "quick": ["-preempt", "1"], "thorough": ["-preempt", "2"]},
              "reach": ["C17.two_writers"]},
         ],
-        "bounds": {"quick": "scenario matrix H18_* (P1 retained update || subscribe, P2 delivery || teardown, P3 two publishers, P4 churn || fan-out, P6 session store || connect, P7 Server.Publish || traffic, P8 resumed session / takeover || publish, P9 in-process API from several goroutines): canonical schedule, with the cross-connection interleavings that matter forced through hooks on the topic store (delivery to a connection during its own teardown); plus two writers to one connection under the exploring scheduler (preemption bound 1)", "thorough": "same"},
+        "bounds": {"quick": "scenario matrix H18_* (P1 retained update || subscribe, P2 delivery || teardown, P3 two publishers, P4 churn || fan-out, P6 session store || connect, P7 Server.Publish || traffic, P8 resumed session / takeover || publish, P9 in-process API from several goroutines, P11 Server.Close || a teardown in progress, P12 Server.Close || accept, P13 Server.Close || fan-out of a connection with a will, P14 ring Close || consumer on a wrapped block): canonical schedule, with the cross-connection interleavings that matter forced through hooks on the topic store (delivery to a connection during its own teardown); plus two writers to one connection under the exploring scheduler (preemption bound 1)", "thorough": "same"},
         "outside": ["operation pairs not in the matrix", "more than the threads of 3-4 connections", "races that need more than the explored interleavings to make both accesses occur"],
         "assumptions": [],
     },
@@ -436,7 +486,7 @@ CHECKS = {
             {"pkg": "service", "run": "H19_.*",
              "flags": {"common": ["-unwind", "64", "-qtimeout", "3000"], "quick": ["-bounds", "N19steps=3"], "thorough": ["-bounds", "N19steps=5"]},
              "reach": ["C19.done"]},
-            {"pkg": "service", "run": "H19b_.*|H19c_.*", "flags": {"common": ["-unwind", "100000"]}, "reach_any": ["C19.dead_subscriber_dropped", "C19.ping_during_large_publish"]},
+            {"pkg": "service", "run": "H19b_.*|H19c_.*|H19d_.*", "flags": {"common": ["-unwind", "100000"]}, "reach_any": ["C19.dead_subscriber_dropped", "C19.ping_during_large_publish"]},
             # the abnormal end is complete for every kind of will (retained, empty, ...) and every ending (see C09)
             {"pkg": "service", "run": "H09_will", "flags": {"common": ["-unwind", "64"]}, "reach": ["C09.will_seen"]},
         ],
@@ -455,6 +505,8 @@ CHECKS = {
             {"pkg": "sessions", "run": "H13_wait|H13_acked",
              "flags": {"common": ["-unwind", "40"], "quick": ["-bounds", "N13logsizes=2,N13ops=4"], "thorough": ["-bounds", "N13logsizes=2,N13ops=4"]},
              "reach": []},
+            # the queue at a session's real size with 17..260 requests in flight after 0..17 completed ones (growth while wrapped at 16..256 slots)
+            {"pkg": "sessions", "run": "H13p_many", "flags": {"common": ["-unwind", "1000"]}, "reach": ["C13.many"]},
             # the receive path shared with the broker role: framing of inbound packets for any header bytes, and
             # inbound traffic that laps the receive ring while a hand-over is held up
             {"pkg": "service", "run": "H17_peeksize", "flags": {"common": ["-unwind", "40"]}, "reach": ["C17.peeksize"]},
